@@ -72,6 +72,7 @@ MUTANTS = {
  "c09_get_index_out_of_bounds": (["C09"], [(E, "                    let index = keys[source.gen_range(0, keys.len())];\n                    let mutated_index = self.mutate_memo_index(index, source);\n                    // in unsafe mode, allow any mutated index; otherwise validate it exists\n                    let index =\n                        if self.unsafe_mutations || self.state.memo.contains_key(&mutated_index) {\n                            mutated_index\n                        } else {\n                            index\n                        };\n                    self.output.push(Get.as_u8());", "                    let index = keys[source.gen_range(0, keys.len() + 1)];\n                    let mutated_index = self.mutate_memo_index(index, source);\n                    // in unsafe mode, allow any mutated index; otherwise validate it exists\n                    let index =\n                        if self.unsafe_mutations || self.state.memo.contains_key(&mutated_index) {\n                            mutated_index\n                        } else {\n                            index\n                        };\n                    self.output.push(Get.as_u8());")], "GET index drawn one past the end"),
  "c09_abort_on_deep_stack": (["C09"], [(S, "        // remove any MARKs by using TUPLE\n", "        if self.state.stack.len() > 150 {\n            std::process::abort();\n        }\n        // remove any MARKs by using TUPLE\n")], "process abort when the final stack is deep (only visible from outside the process)"),
  "c09_recursive_drop_again": (["C09"], [("src/stack.rs", "        if Rc::strong_count(&self.0) != 1 {\n            return;\n        }\n        let mut pending", "        if Rc::strong_count(&self.0) != usize::MAX {\n            return;\n        }\n        let mut pending")], "object graphs are dropped recursively again (the fixed defect, re-opened): only deep periodic-script runs overflow the stack"),
+ "c09_spins_forever_on_a_rare_final_stack": (["C09"], [(S, "        // remove any MARKs by using TUPLE\n", "        if self.state.stack.len() == 97 {\n            loop {\n                std::hint::spin_loop();\n            }\n        }\n        // remove any MARKs by using TUPLE\n")], "never returns when the final stack has exactly 97 items (hang: only the watchdog of the process sweep can see it)"),
  # ---- C10
  "c10_ext_enabled_by_default": (["C10"], [(G, "            allow_ext_opcodes: false,", "            allow_ext_opcodes: true,")], "EXT opcodes on by default"),
  "c10_type_confusion_injects_ext": (["C10"], [(TC, "                let mut bytes = vec![OpcodeKind::BinInt.as_u8()];\n                bytes.extend_from_slice(&source.gen_i32().to_le_bytes());\n                bytes", "                let _ = source.gen_i32();\n                vec![OpcodeKind::Ext1.as_u8(), 7]")], "type confusion's int replacement is an EXT1 opcode"),
